@@ -121,6 +121,7 @@ def _programs(ctx, n, tag, want_steps):
 
 
 _FC = {}
+_INS: dict = {}
 
 
 def _filecheck_functions(ctx, want_steps):
@@ -144,10 +145,14 @@ def _filecheck_functions(ctx, want_steps):
     return out
 
 
+_SUSPECTS: list = []
+
+
 # ---------------------------------------------------------------- L1
 def correspondence(ctx):
     dis = []
     items = _programs(ctx, ctx.n(14, 300), "L1", True)
+    _INS.update({text: ins for text, fn, ins, st in items})
     steps = []
     for text, fn, ins, st in items:
         if st.error:
@@ -186,6 +191,8 @@ def correspondence(ctx):
         for idx in lists[1]:
             s, text = sh[idx]
             dis.append({"name": "L1:simplify-rewrite-fails-simplify_cert(hypotheses of C01_simplify_rule_partial)", "target": s[1], "text": text})
+    # programs on which model and code disagree are searched first by L2
+    _SUSPECTS[:] = [d["text"] for d in dis if d.get("text") in _INS][:24]
     return dis
 
 
@@ -255,6 +262,8 @@ def search(ctx, deep=False):
         text = open(path).read()
         items.append((text, fn, ins, AC.Staged(text, fn), False))
         ctx.count({"probe": path, "fn": fn}, True, path + fn, "probe")
+    for text in dict.fromkeys(_SUSPECTS):
+        items.append((text, "f", _INS[text] * 2, AC.Staged(text), False))
     for text, fn, ins, st in _programs(ctx, n, "L2", False):
         items.append((text, fn, ins, st, False))
         for a in ins:
